@@ -173,8 +173,11 @@ def c10_documents(run):
         for _ in range(150):
             cur["items"] = {}
             cur = cur["items"]
+        fw = lambda w: "".join(chr(ord(c) + 0xFEE0) if "!" <= c <= "~" else c for c in w)
+        odd_names = [{"type": "object", "title": "T", "properties": {n: {"type": "string"}}, "required": [n]}
+                     for n in (fw("dict"), "_" + fw("dict"), fw("__init__"), fw("__class__"), fw("class"), fw("self"), fw("properties"), "\ufb01", "x\u00b2", "", " ", "__", "a-b")]
         for doc in [True, False, {}, {"definitions": {"a": True, "b": False}}, {"definitions": {}}, deep,
-                    {"type": "object", "title": "T", "definitions": {"x": {"type": "string"}}}]:
+                    {"type": "object", "title": "T", "definitions": {"x": {"type": "string"}}}] + odd_names:
             key = jkey(doc)[:120]
             acc.case(key)
             try:
@@ -201,7 +204,10 @@ def c10_documents(run):
             except BaseException as ex:
                 acc.fail(label, f"parse() raised {type(ex).__name__} (not in the schema-parse family)")
         big = 10 ** 5000
-        for S in [{"maximum": 1}, {"type": "integer", "minimum": 0}, {"const": 1}, {"enum": [1]}, {"type": "string"}, {"multipleOf": 3}, {"type": "number"}]:
+        for S in [{"maximum": 1}, {"type": "integer", "minimum": 0}, {"const": 1}, {"enum": [1]}, {"type": "string"}, {"multipleOf": 3}, {"type": "number"},
+                  {"oneOf": [{"type": "integer"}, {"type": "number"}]}, {"oneOf": [{}, {}]}, {"not": {"type": "integer"}}, {"not": {}},
+                  {"anyOf": [{"type": "string"}, {"maximum": 1}]}, {"allOf": [{"type": "integer"}, {"maximum": 1}]},
+                  {"properties": {"a": {"oneOf": [{"type": "integer"}, {"minimum": 0}]}}}, {"items": {"not": {"minimum": 0}}}]:
             for label, v in (("10**5000", big), ("-10**5000", -big), ("[10**5000]", [big]), ("{'a': 10**5000}", {"a": big})):
                 key = f"{jkey(S)} <- {label}"
                 acc.case(key)
@@ -212,7 +218,8 @@ def c10_documents(run):
         # the same limit on the schema side: keyword values with more than 4300 digits (metaschema-valid numbers)
         for S in [{"maximum": big}, {"minimum": -big}, {"exclusiveMaximum": big}, {"multipleOf": big}, {"const": big}, {"enum": [big, "a"]},
                   {"properties": {"a": {"maximum": big}}}, {"items": {"const": big}}, {"type": "integer", "default": big}, {"maxLength": big},
-                  {"minItems": big}, {"anyOf": [{"const": big}, {"type": "string"}]}]:
+                  {"minItems": big}, {"anyOf": [{"const": big}, {"type": "string"}]}, {"not": {"const": big}}, {"not": {"maximum": big}},
+                  {"oneOf": [{"const": big}, {"maximum": big}]}, {"allOf": [{"not": {"enum": [big]}}]}]:
             for label, v in (("10**5001", big * 10), ("-10**5001", -big * 10), ("'x'", "x"), ("1", 1), ("[1]", [1]), ("{'a': 10**5001}", {"a": big * 10}), ("[10**5001]", [big * 10])):
                 key = f"{{{', '.join(repr(k) + ': ...' for k in S)}}} with a 5001-digit literal <- {label}"
                 acc.case(key)
@@ -371,6 +378,31 @@ def c07_defaults(run):
                                 acc.fail(key + " [python]", f"generated class default {getattr(obj, 'default', None)!r} != parsed {E.default!r}")
                 except Exception as e:
                     acc.fail(key + " [python]", f"generated module failed: {type(e).__name__}: {e}")
+        # the same sub-schema *object* referenced from several places (what dereferencing a document with several $ref to one
+        # definition produces): every place must carry the default
+        for S0 in docs[::2]:
+            if not (isinstance(S0, dict) and "default" in S0):
+                continue
+            shared = copy.deepcopy(S0)
+            doc = {"type": "object", "title": "Sh", "properties": {"a": shared, "b": shared, "c": {"type": "array", "items": shared}}}
+            key = "shared sub-schema x3: " + jkey(S0)
+            acc.case(key)
+            try:
+                E = parse_element(doc)
+            except Exception as e:
+                acc.fail(key, f"parse raised {type(e).__name__}: {e}")
+                continue
+            props = getattr(E, "properties", None) or {}
+            for pname in ("a", "b"):
+                pr = [p for p in props.values() if p.source == pname]
+                got = getattr(pr[0].element, "default", NotPassed()) if pr else NotPassed()
+                if isinstance(got, NotPassed) or not pyspec.same(got, S0["default"]):
+                    acc.fail(key, f"property {pname} (the same schema object as its siblings): default {S0['default']!r} expected, element carries {got!r}")
+            pc = [p for p in props.values() if p.source == "c"]
+            it = getattr(pc[0].element, "items", None) if pc else None
+            got = getattr(it, "default", NotPassed())
+            if isinstance(got, NotPassed) or not pyspec.same(got, S0["default"]):
+                acc.fail(key, f"items of property c (the same schema object again): default {S0['default']!r} expected, element carries {got!r}")
         if run.tier != "quick":
             # thorough: a default (and a description) injected at every sub-schema position of every enumerator document, one
             # at a time; the multiset of defaults/descriptions of the JSON serialisation of the parsed element must be the
